@@ -6,7 +6,7 @@ func init() { checks["C14"] = checkC14 }
 
 func checkC14(c *Check) {
 	c.Rule = "TLC (RulesGen.tla, alphabet AlphaLimits) enumerates documents under several small limit configurations (container depth, object count, array bytes, identifier length, marker count each set to 1..4) so that every document's usage lies below, at and above each limit; a behaviour ends at the first event the model rejects because a limit is exceeded; each is replayed into rules.NewRules configured with the same numbers. non-trivial = contains a container/array/marker; distinct = (limit configuration, index sequence)"
-	c.Assumptions = []string{"abs/concretiser of harness/abs.go", "TLC", "usage is counted the way the validator counts it (a marker and its value are 2 objects, a record type definition 1, a reference 1); MaxMarkerCount and MaxLocalReferenceCount are set equal", "document size limit (decoders) is checked by the CBE/CTE reader checks, not here"}
+	c.Assumptions = []string{"abs/concretiser of harness/abs.go", "TLC", "usage is counted the way the validator counts it (a marker and its value are 2 objects, a record type definition 1, a reference 1); the marker limit is carried by MaxMarkerCount, by MaxLocalReferenceCount or by both (Lim.RefsVia); the model's lim.refs is the smaller of the two", "document size limit (decoders) is checked by the CBE/CTE reader checks, not here"}
 	reasons := []string{"limit"}
 	runRulesMC(c, "AlphaLimits", map[string]int{"quick": 5, "thorough": 6}[c.Tier], Lim{Depth: 2, Objs: 4, ABytes: 3, IDLen: 2, Refs: 1}, "", "limits")
 	n := 5
@@ -16,12 +16,19 @@ func checkC14(c *Check) {
 	to := 40 * time.Minute
 	lims := []Lim{
 		{Depth: 2, Objs: 4, ABytes: 3, IDLen: 2, Refs: 1},
-		{Depth: 1, Objs: 3, ABytes: 2, IDLen: 1, Refs: 2},
-		{Depth: 3, Objs: 6, ABytes: 4, IDLen: 3, Refs: 1},
+		{Depth: 1, Objs: 3, ABytes: 2, IDLen: 1, Refs: 1, RefsVia: 1},
+		{Depth: 3, Objs: 6, ABytes: 4, IDLen: 3, Refs: 1, RefsVia: 2},
 	}
 	if c.Tier == "thorough" {
-		lims = append(lims, Lim{Depth: 4, Objs: 5, ABytes: 1, IDLen: 2, Refs: 3}, Lim{Depth: 2, Objs: 7, ABytes: 0, IDLen: 1000, Refs: 2})
+		lims = append(lims, Lim{Depth: 4, Objs: 5, ABytes: 1, IDLen: 2, Refs: 3, RefsVia: 1}, Lim{Depth: 2, Objs: 7, ABytes: 0, IDLen: 1000, Refs: 2})
 	}
+	// markers beyond the first two need longer documents: start inside a list that already holds marked values
+	marked := `<<EvBD, EvVer(0), EvList, EvIdX("OnMarker", "bb", 2, TRUE), EvNull>>`
+	marked2 := `<<EvBD, EvVer(0), EvList, EvIdX("OnMarker", "bb", 2, TRUE), EvNull, EvIdX("OnMarker", "ccc", 3, TRUE), EvList>>`
+	for via := 1; via < 3; via++ {
+		runRulesGen(c, genCfg{Alphabet: "AlphaLimits", MaxLen: n - 1, Lim: Lim{Depth: 3, Objs: 9, ABytes: 3, IDLen: 3, Refs: 2, RefsVia: via}, Reasons: reasons, Prefix: marked, Label: "limits/markers2-via" + string(rune('0'+via)), Timeout: to, Workers: 8})
+	}
+	runRulesGen(c, genCfg{Alphabet: "AlphaLimits", MaxLen: n - 1, Lim: Lim{Depth: 3, Objs: 10, ABytes: 3, IDLen: 3, Refs: 3, RefsVia: 1}, Reasons: reasons, Prefix: marked2, Label: "limits/markers3", Timeout: to, Workers: 8})
 	for i, l := range lims {
 		runRulesGen(c, genCfg{Alphabet: "AlphaLimits", MaxLen: n, Lim: l, Reasons: reasons, Prefix: prefixDoc, Label: "limits/" + string(rune('a'+i)), Timeout: to, Workers: 8})
 	}
